@@ -297,7 +297,7 @@ theorem eval_logPhase (now : Time) (strict : Bool) (ik ihash sv : String) (schem
     · rw [if_neg hb] at h; exact key x h
 
 /-- A complete `runLog` keeps the tables in agreement with the journal. -/
-theorem runLog_spec (now : Time) (hn : String) (f : Option Fault) (strict : Bool) (kind : OpKind)
+theorem runLog_spec (now : Time) (hn : String) (f : Faults) (strict : Bool) (kind : OpKind)
     (ik ihash sv : String) (n : Nat) (st0 st : RunSt) (log : Log)
     (h : run now hn f (runLog strict kind ik ihash sv n) st0 = (.ok log, st)) (hs : SpecOk st0.db) :
     SpecOk st.db := by
@@ -322,7 +322,7 @@ theorem SpecOk.empty : SpecOk {} := rfl
 
 /-- Every write operation — with or without faults — keeps the tables in agreement
     with the journal. -/
-theorem forgeLog_spec (strict : Bool) (op : Op) (f : Option Fault) (cf : Bool) (s : State) (h : SpecOk s.db) :
+theorem forgeLog_spec (strict : Bool) (op : Op) (f : Faults) (cf : Bool) (s : State) (h : SpecOk s.db) :
     SpecOk (forgeLog strict op f cf s).state.db := by
   rcases forgeLog_ending strict op f cf s with ⟨hu, _, _⟩ | ⟨st0, st, log, hn, f', n, _, h0, _, hrun, hc⟩
   · rw [hu]; exact h
@@ -333,6 +333,6 @@ theorem runHist_spec (strict : Bool) (s : State) (ops : List Op) (h : SpecOk s.d
     SpecOk (runHist strict s ops).db := by
   induction ops generalizing s with
   | nil => exact h
-  | cons op r ih => exact ih _ (forgeLog_spec strict op none false s h)
+  | cons op r ih => exact ih _ (forgeLog_spec strict op [] false s h)
 
 end Ledger.Ctrl
